@@ -1,6 +1,7 @@
 //! vh — conformance harness binding the TLA+ specifications in /verif/spec to the real
 //! pdatastructs code (path dependency on /repo, built with --cfg pdatastructs_verif).
 mod common;
+mod compat;
 mod ctor;
 mod ext;
 mod bl;
@@ -136,6 +137,7 @@ fn dispatch(args: &[String]) {
         ("rank", "td") => td::rank(&args),
         ("ctor", _) => ctor::run(&args),
         ("ext", _) => ext::run(&args),
+        ("compat", _) => compat::run(&args),
         ("sizing", _) => sizing::run(&args),
         ("mem", _) => mem::run(&args),
         ("replay", "ck") => replay::<ck::CkSut>(&args),
